@@ -726,6 +726,36 @@ func Fetch(kb *ast.KnowledgeBase, w *ref.World, returnErr bool, choice int) *Fet
 	return res
 }
 
+// FetchOn calls FetchMatchingRules of the GIVEN engine value (several calls may share it) and returns the
+// slice exactly as the engine returned it; onProbe is called at every probe invocation of the world's facts.
+func FetchOn(eng *engine.GruleEngine, kb *ast.KnowledgeBase, w *ref.World, choice int, onProbe func(kind string, id int64, n int)) (rs []*ast.RuleEntry, err error, panicked interface{}) {
+	dc, derr := NewDataContext(w)
+	if derr != nil {
+		return nil, derr, nil
+	}
+	for _, f := range w.Objs {
+		f.H().OnProbe = onProbe
+	}
+	setChooser(kb.RuleEntries, func(keys []string) []int {
+		np := NPerms(len(keys))
+		ch := choice
+		if ch >= np {
+			ch = np - 1
+		}
+		return permOf(len(keys), ch)
+	})
+	defer setChooser(kb.RuleEntries, nil)
+	func() {
+		defer func() {
+			if r := recover(); r != nil {
+				panicked = r
+			}
+		}()
+		rs, err = eng.FetchMatchingRules(dc, kb)
+	}()
+	return rs, err, panicked
+}
+
 // PollCtx is a context whose Err() counts polls and flips to Cause at poll FlipAt (1-based).
 // FlipAt == 0: never flips by itself (use Cancel()).
 type PollCtx struct {
